@@ -207,7 +207,7 @@ pub(super) fn write_to_file(path: &Path, content: String, extension: &str, auto:
         }
     } else if path.is_dir() {
         // if path is dir, write to file of <dir>/out.<extension>
-        let mut p = PathBuf::from("out");
+        let mut p = path.join("out");
         p.set_extension(extension);
         dir_create_file(&p, content, auto)
     } else {
